@@ -153,8 +153,15 @@ fn setup(name: &str, k: &Knobs, max_flows: u32, max_rx: u32, timeout: u32, n_cli
 /// One lock-step run. Returns (events written, worker panic message if any).
 fn one_run(rng: &mut StdRng, run: u64, steps: usize, w: &mut BufWriter<std::fs::File>, cover: &mut BTreeMap<String, u64>, quiet: Duration,
            flips: bool) -> Result<(u64, Option<String>), String> {
-    let mut k = Knobs { with_port: rng.random_bool(0.7), responses: [0, 0, 2][rng.random_range(0..3)], requests: [0, 0, 3][rng.random_range(0..3)] };
-    let mut cap: u32 = rng.random_range(1..4);
+    // odd runs start in the configuration where flows can share a backend (3 per-port flows over 2
+    // backends): the case where a shell that picked the upstream socket by destination would alias
+    let crowded = run % 2 == 1;
+    let mut k = Knobs {
+        with_port: crowded || rng.random_bool(0.6),
+        responses: if crowded { 0 } else { [0, 0, 2][rng.random_range(0..3)] },
+        requests: if crowded { 0 } else { [0, 0, 3][rng.random_range(0..3)] },
+    };
+    let mut cap: u32 = if crowded { 3 } else { rng.random_range(1..4) };
     let max_rx: u32 = 48;
     let timeout = 120u32;
     let mut sh = setup(&format!("c19-{run}"), &k, cap, max_rx, timeout, 3, quiet)?;
@@ -169,17 +176,18 @@ fn one_run(rng: &mut StdRng, run: u64, steps: usize, w: &mut BufWriter<std::fs::
     // upstream ports seen at the backends, newest last: (port, backend)
     let mut upstreams: Vec<(i64, i64)> = Vec::new();
     let mut bump = |c: &mut BTreeMap<String, u64>, k: &str| *c.entry(k.to_string()).or_default() += 1;
-    for _ in 0..steps {
+    for step in 0..steps {
         if sh.worker.is_finished() {
             break;
         }
-        let roll = rng.random_range(0..100u32);
+        let warmup = crowded && step < 2 * sh.clients.len();
+        let roll = if warmup { 0 } else { rng.random_range(0..100u32) };
         match roll {
             0..50 => {
                 // a client datagram; sometimes empty-ish (too long for max_rx)
-                let c = rng.random_range(0..sh.clients.len());
+                let c = if warmup { step % sh.clients.len() } else { rng.random_range(0..sh.clients.len()) };
                 next_id += 1;
-                let len = if rng.random_bool(0.1) { max_rx as usize + 5 } else { rng.random_range(8..=max_rx as usize) };
+                let len = if !warmup && rng.random_bool(0.1) { max_rx as usize + 5 } else { rng.random_range(8..=max_rx as usize) };
                 let bytes = payload(next_id, len);
                 sh.clients[c].send_to(&bytes, sh.front).map_err(|e| e.to_string())?;
                 let got = sh.backend_recv(sh.quiet);
